@@ -154,6 +154,23 @@ def _replay(sub, groups):
             h.close()
 
 
+def _falsified(rows):
+    """Binding self-test rows: a map entry dropped, two dotted revnos exchanged, a specifier resolved to the wrong revision."""
+    import copy
+    r = next((r for r in rows if sum(1 for e in r["ob"]["map"] if len(e["d"]) == 3) >= 1 and len(r["ob"]["map"]) >= 3), None)
+    if r is None:
+        return []
+    a, b, c = copy.deepcopy(r), copy.deepcopy(r), copy.deepcopy(r)
+    a["ob"]["map"].pop()
+    m = b["ob"]["map"]
+    i = next(i for i, e in enumerate(m) if len(e["d"]) == 3)
+    j = next(j for j, e in enumerate(m) if len(e["d"]) == 1)
+    m[i]["d"], m[j]["d"] = m[j]["d"], m[i]["d"]
+    x = next(x for x in c["ob"]["res"] if x["sp"][0] == "revid" and x["ih"] > 0)
+    x["ih"] = x["ar"] = (x["ih"] % len(r["c"]["par"])) + 1
+    return [("mapdomain", a), ("mapmainline", b), ("specs", c)]
+
+
 def run(ctx):
     env.init()
     hc.preload()
@@ -186,7 +203,7 @@ def run(ctx):
                         "resolutions (spec string, in_history, as_revision_id)":
                             [[x["s"], x["ih"], x["ar"]] for x in r["ob"]["res"] if x["sp"][0] in ("before", "mainline", "ancestor")][:8]},
                        limit=2)
-    for row, v in hc.judge_parallel(ctx, "HistoryC22Trace", rows):
+    for row, v in hc.judge_with_selftest(ctx, "HistoryC22Trace", rows, _falsified(rows)):
         c = row["c"]
         for law in v["failed"]:
             if law == "specs":
